@@ -1,6 +1,7 @@
 import VaxisModel.Driver.Common
 import VaxisModel.Driver.C03
 import VaxisModel.Model.Width
+import VaxisModel.Model.WidthGen
 import VaxisModel.Model.Startup
 import VaxisModel.Gen.Sequences
 import VaxisModel.Driver.C07img
@@ -214,9 +215,16 @@ def step (line : String) : String :=
         s!"{want}\t{impl}\t{v}"
       | none => "bad-op\tbad-op\tbad-op"
   | ["width", u, e, z, _, wc, nz, std] =>
+      -- the oracle: the method that matches the capabilities (the clause of the property text, `Props.C07.width_method`)
       let m := VaxisModel.Model.Width.widthMethod (u == "1") (e == "1") (z == "1")
-      let want := match m with | .unicodeStd => std | .noZWJ => nz | .wcwidth => wc
-      s!"{want}\t{impl}\t{if want = impl then "ok" else s!"FAIL RenderedWidth {impl} but the method for these capabilities gives {want}"}"
+      let pick (m : VaxisModel.Model.Width.WidthMethod) : String := match m with | .unicodeStd => std | .noZWJ => nz | .wcwidth => wc
+      let want := pick m
+      -- the model: the statement chain of RenderedWidth as regenerated from vaxis.go, interpreted
+      -- (`Props.C07Width.width_method_interpreted`: equal to `widthMethod` on the unchanged tree)
+      let mc := match VaxisModel.Model.WidthGen.widthMethodGen (u == "1") (e == "1") (z == "1") with
+        | some g => pick g
+        | none => "unknown"
+      s!"{mc}\t{impl}\t{if want = impl then "ok" else s!"FAIL RenderedWidth {impl} but the method for these capabilities gives {want}"}"
   | _ => "bad-op\tbad-op\tbad-op"
 
 def main : IO Unit := lineLoop step
